@@ -49,15 +49,40 @@ def prc1(ctx, lib):
 
 
 def prc2(ctx, lib, prec_fn):
-    sites = [(b, n) for b, n in group_printers(lib) if b.impl_trait is None or True]
+    sites = [b for b, n in group_printers(lib)]
+    # helpers: predicates wrapping the precedence comparison, and group builders that leave the decision to their callers
+    helpers = {b.path for b in lib.bodies if b.kind in ("fn", "assoc_fn") and not b.derived and b.sig_output == "bool"
+               and any(callee_name(t) == prec_fn.path for _, t in b.calls())}
+
+    def inl(n):
+        return fmtmodel.component_inline(n) or n in helpers
+
+    def decides(leaves):
+        return any(k[0] == "bin" and k[1] == "Lt" and k[2][0] == "call" and k[2][1] == prec_fn.path for l in leaves for k in l.facts)
     n_ok = 0
-    for b, n in sites:
+    work = list(sites)
+    done = set()
+    depth = {b.path: 0 for b in work}
+    while work:
+        b = work.pop(0)
+        if b.path in done:
+            continue
+        done.add(b.path)
         if b.impl_self and b.impl_self.startswith("regexp::RegExp"):
             continue      # outer group: PRC-3
         if b.impl_self == "grapheme::Grapheme":
             continue      # quantified unit group: QNT-1 (C05)
-        m = ccp.Machine([lib], inline=fmtmodel.component_inline, max_leaves=8192)
+        m = ccp.Machine([lib], inline=inl, max_leaves=8192)
         leaves = m.run(b)
+        if not decides(leaves) and b.kind in ("fn", "assoc_fn") and not b.is_pub and depth[b.path] < 3:
+            ups = guards.call_sites(lib, b.path)
+            if ups:
+                # a group builder without a decision of its own: judged inside each of its callers
+                helpers.add(b.path)
+                for ub, _, _ in ups:
+                    depth.setdefault(ub.path, depth[b.path] + 1)
+                    work.append(ub)
+                continue
         for l in leaves:
             if l.kind != "return":
                 continue
@@ -157,7 +182,7 @@ def run(ctx):
     ctx.assume("whether minimisation, union() factoring and remove_common_substring preserve the language for all inputs is NOT decided (algorithmic); these are necessary printer conditions only")
     prog = common.view(ctx, "default")
     lib = prog.lib
-    roles = common.role_fields(ctx, lib)
+    roles = common.role_fields(ctx, lib, want=common.FMT_ROLES)
     pf = prc1(ctx, lib)
     if pf is not None:
         prc2(ctx, lib, pf)
@@ -170,6 +195,10 @@ def run(ctx):
     ctx.rule("UNI-2", "`x?` is built from the alternative that is not the one known to be empty")
     ctx.rule("UNI-3", "a removed common prefix is re-attached in front and a removed common suffix behind the factored rest")
     uni(ctx, lib)
+    from . import counting
+    counting.rules(ctx)
+    counting.cnt1(ctx, lib)
+    counting.cnt2(ctx, lib)
     ctx.rule("BRZ-1", "every update of the equation system in the state-elimination function has the shape of Brzozowski's algebraic method "
                       "(b[n]=a[n,n]*b[n]; a[n,j]=a[n,n]*a[n,j]; b[i]=b[i]+a[i,n]b[n]; a[i,j]=a[i,j]+a[i,n]a[n,j]; n = reversed loop variable)")
     brz1(ctx, lib)
@@ -220,33 +249,8 @@ def uni(ctx, lib):
                               "a multi-character alternative would be dissolved into its characters" % bad, body.loc(t.get("line")))
             else:
                 ctx.ok("UNI-1", "%s:class merge under single-code-point guards" % body.path, {"guards": sorted(set(singles.values()))}, body.loc(t.get("line")))
-    # UNI-2: `x?` is built from the non-empty side
-    rep = [b for b in lib.bodies if b.kind == "assoc_fn" and b.sig_output == "expression::Expression" and "quantifier::Quantifier" in b.sig_inputs]
-    n2 = 0
-    for r_ in rep:
-        for body, bi, t in guards.call_sites(lib, r_.path):
-            fi = guards.FnInfo.of(body)
-            q = fi.defs.operand(t["args"][1])
-            if not (q[0] == "agg" and q[2] and q[2].endswith("::QuestionMark")):
-                continue
-            x = fi.defs.operand(t["args"][0])
-            if not (x[0] == "call" and x[1].endswith("Clone>::clone")):
-                continue            # `(a|b)?` built from a fresh alternation: not the empty-side idiom
-            xs = local.show(local.peel(x[2][0]))
-            empties = []
-            for g in guards.guards(body, bi):
-                o = local.peel(g["origin"])
-                if o[0] == "call" and lib.body(o[1]) is not None and lib.body(o[1]).sig_inputs == ["&" + EXPR] and lib.body(o[1]).sig_output == "bool" \
-                        and guards.edge_truth(g) is True and fi.cfg.edge_dominates(g["block"], g["succ"], bi):
-                    empties.append(local.show(local.peel(o[2][0])))
-            n2 += 1
-            if not empties:
-                ctx.violation("UNI-2", (body.path, "optional side"), "an alternative is made optional without the other alternative being known to be empty", body.loc(t.get("line")))
-            elif xs in empties:
-                ctx.violation("UNI-2", (body.path, "optional side"), "the alternative known to be *empty* is the one made optional: the non-empty alternative is lost", body.loc(t.get("line")))
-            else:
-                ctx.ok("UNI-2", "%s:%s? under is_empty(other)" % (body.path, xs[-40:]), None, body.loc(t.get("line")))
-    ctx.floor("UNI-2", "optional-side constructions", n2, 2)
+    # UNI-2: `x?` is built from the non-empty side (abstract paths of the union function; crate helpers that build the optional are inlined)
+    uni2(ctx, lib)
     # UNI-3: a removed common prefix is re-attached in front, a removed common suffix behind
     conc = [b for b in lib.bodies if b.kind == "assoc_fn" and b.sig_output == "expression::Expression"
             and len([t for t in b.sig_inputs if t == EXPR]) == 2]
@@ -278,6 +282,86 @@ def uni(ctx, lib):
             else:
                 ctx.ok("UNI-3", "%s:%s re-attached as operand %d" % (body.path, kinds[0][1], kinds[0][0] + 1), None, body.loc(t.get("line")))
     ctx.floor("UNI-3", "re-attachments of a removed common prefix/suffix", n3, 2)
+
+
+def _walk_v(v):
+    from sa import ccp
+    yield v
+    for f in (getattr(v, "fields", None) or getattr(v, "args", None) or []):
+        if isinstance(f, ccp.V):
+            yield from _walk_v(f)
+    for nm in ("base", "a", "b", "v"):
+        f = getattr(v, nm, None)
+        if isinstance(f, ccp.V):
+            yield from _walk_v(f)
+
+
+def uni2(ctx, lib):
+    """Abstract paths of the function that unites two optional expressions.  On every path a returned `Repetition(X, q)` whose X is (a clone of) one of the
+    two alternatives requires q = `?`, a fact is_empty(other alternative) = true and no fact is_empty(X) = true; no other quantifier is ever built there."""
+    from sa import ccp
+    opt = "&std::option::Option<%s>" % EXPR
+    us = [b for b in lib.bodies if b.kind in ("assoc_fn", "fn") and len([t for t in b.sig_inputs if t == opt]) == 2 and b.sig_output == opt[1:]]
+    if not ctx.floor("UNI-2", "functions uniting two optional expressions", len(us), 1):
+        return
+    preds = {b.path for b in lib.bodies if b.sig_inputs == ["&" + EXPR] and b.sig_output == "bool"}
+    n2 = 0
+    n_u = 0
+    for u in us:
+        pnames = [u.locals[i + 1].get("name") or "arg%d" % (i + 1) for i, t in enumerate(u.sig_inputs) if t == opt]
+
+        def inl(n):
+            x = lib.body(n)
+            return x is not None and n != u.path and x.sig_output in (EXPR, opt[1:]) and n not in preds and not x.derived and not x.impl_trait
+        m = ccp.Machine([lib], inline=inl, max_leaves=6000)
+        leaves = m.run(u, None)
+        if any(l.kind == "cut" for l in leaves):
+            ctx.no_verdict("UNI-2", (u.path, "paths"), "abstract interpretation of %s did not terminate within the path budget" % u.path, u.loc())
+            continue
+        if not any(isinstance(x, ccp.Agg) and x.kind == "adt" and x.label.endswith("::Alternation") for l in leaves if l.kind == "return" for x in _walk_v(l.value)):
+            continue        # same signature but never yields an alternation: the concatenating sibling
+        n_u += 1
+        seen = {}
+        for l in leaves:
+            if l.kind != "return":
+                continue
+            empt = {}
+            for atom, val in l.label:
+                for pth in preds:
+                    if atom.startswith(pth + "("):
+                        rs = {p_ for p_ in pnames if re.search(r"\b%s\b" % re.escape(p_), atom[len(pth):])}
+                        if len(rs) == 1:
+                            empt.setdefault((pth, rs.pop()), val)
+            for x in _walk_v(l.value):
+                if not (isinstance(x, ccp.Agg) and x.kind == "adt" and x.label.endswith("::Repetition") and len(x.fields) >= 2):
+                    continue
+                q = ccp.show(x.fields[1])
+                opnd = ccp.show(x.fields[0])
+                roots = {p_ for p_ in pnames if re.search(r"Clone>::clone\(%s\)" % re.escape(p_), opnd) or re.fullmatch(r".*\b%s\b.*" % re.escape(p_), opnd)}
+                fresh = any(isinstance(y, ccp.Agg) and y.kind == "adt" and y.label.endswith(("::Alternation", "::Concatenation", "::CharacterClass")) for y in _walk_v(x.fields[0]))
+                if "QuestionMark" not in q:
+                    seen[(q, "quantifier")] = ("violation", "the union of two alternatives builds a repetition with %s: only `?` (for an empty alternative) can be introduced here" % q)
+                    continue
+                if fresh or len(roots) != 1:
+                    continue
+                r_ = next(iter(roots))
+                other = [p_ for p_ in pnames if p_ != r_][0]
+                true_other = [pth for (pth, pn), val in empt.items() if pn == other and val == "True"]
+                true_self = [pth for (pth, pn), val in empt.items() if pn == r_ and val == "True"]
+                if true_self:
+                    seen[(r_, "optional side")] = ("violation", "the alternative known to be *empty* (%s) is the one made optional: the non-empty alternative is lost" % true_self[0])
+                elif not true_other:
+                    seen[(r_, "optional side")] = ("violation", "alternative `%s` is made optional on a path where the other alternative is not known to be empty" % r_)
+                else:
+                    seen.setdefault((r_, "optional side"), ("ok", "%s? under %s(%s)" % (r_, true_other[0], other)))
+        for key, (st, msg) in sorted(seen.items()):
+            n2 += 1
+            if st == "violation":
+                ctx.violation("UNI-2", (u.path, key[1]), msg, u.loc())
+            else:
+                ctx.ok("UNI-2", "%s:%s" % (u.path, msg), {"paths": len(leaves)}, u.loc())
+    if ctx.floor("UNI-2", "functions whose result can be an alternation of their two arguments", n_u, 1):
+        ctx.floor("UNI-2", "optional-side constructions", n2, 2)
 
 
 # ----------------------------------------------------------------------------- BRZ-1: state elimination follows the algebraic schema
